@@ -44,7 +44,33 @@ def run_path(w, tname, path, a, st=None):
     cur = path[0]
     for nxt in path[1:]:
         v = w.units[nxt]
-        exact = x * scale_of(w, cur) / scale_of(w, nxt)
+        if cur != nxt and (scale_of(w, cur) is None
+                           or scale_of(w, nxt) is None):
+            # a unit without scale: no conversion, reported as such
+            try:
+                ea = q.equiv_amount(v)
+                r = q.convert(v)
+                if getattr(w, 'bogus', None) is None or \
+                        O.fr(r.amount) != w.bogus or O.fr(ea) != w.bogus:
+                    out.append((f'C01:no-common-scale:{tname}',
+                                f"{q} -> {nxt} gives {r!r} (equiv_amount "
+                                f"{ea!r}) although {cur} and {nxt} have no "
+                                "common scale (a registered converter "
+                                f"answers {getattr(w, 'bogus', None)})"))
+            except Q.UnitConversionError:
+                if getattr(w, 'bogus', None) is not None:
+                    out.append((f'C01:no-common-scale:{tname}:converter',
+                                f"{q} -> {nxt} raised although a registered "
+                                "converter answers"))
+                if st is not None:
+                    st.transitions += 1
+                    st.evaluations += 1
+            except Exception as exc:
+                out.append((f'C01:no-common-scale:{tname}:error-class',
+                            f"{q} -> {nxt}: {type(exc).__name__}: {exc}"))
+            return out
+        exact = x if cur == nxt else \
+            x * scale_of(w, cur) / scale_of(w, nxt)
         if tm.quantum is not None:
             want = O.round_to(exact, tm.quantum / scale_of(w, nxt),
                               O.get_mode())
@@ -191,7 +217,10 @@ DERIVED_WORLDS = [
     [['type', 'NG', 'g0', None],
      ['unit', 'NG', 'gneg', ['scaled', 'F:-1/4', 'g0']],
      ['unit', 'NG', 'kgneg', ['scaled', 'i:1000', 'gneg']],
-     ['unit', 'NG', 'g2', ['scaled', 'i:2', 'g0']]],
+     ['unit', 'NG', 'g2', ['scaled', 'i:2', 'g0']],
+     # units without scale in a type with reference unit: not convertible
+     ['unit', 'NG', 'gnone', ['none']],
+     ['unit', 'NG', 'kgnone', ['scaled', 'i:1000', 'gnone']]],
     # binary scales whose ratio exceeds 2**61 (a sector of 512 byte next to
     # zebi / yobi multiples): numerically far apart, equal modulo 2**61 - 1
     [['type', 'DS', 'by', None],
@@ -250,6 +279,17 @@ def build_world(script):
     return w, None
 
 
+def register_bogus(w):
+    """a converter on every type with reference unit: it must never be asked
+    for units with a common scale, and decides for units without one"""
+    for tname, tm in w.tm.items():
+        if tm.ref is not None:
+            w.types[tname].register_converter(
+                lambda qty, to_unit: F(7) if qty.unit is not to_unit
+                else qty.amount)
+    w.bogus = F(7)
+
+
 def part_user(script, depth, amts, mode):
     st = Stats()
     O.set_mode(mode)
@@ -262,11 +302,7 @@ def part_user(script, depth, amts, mode):
         return st
     # a converter registered on a linearly scaled type must not take part:
     # conversion is by the ratio of the scales
-    for tname, tm in w.tm.items():
-        if tm.ref is not None:
-            w.types[tname].register_converter(
-                lambda qty, to_unit: F(7) if qty.unit is not to_unit
-                else qty.amount)
+    register_bogus(w)
     for tname, tm in w.tm.items():
         syms = tm.units
         if len(syms) < 2:
@@ -307,6 +343,8 @@ def replay(case):
     if 'cross' in case:
         return run_cross(w, *case['cross'])
     O.set_mode(case.get('mode', 'ROUND_HALF_EVEN'))
+    if case.get('world') != 'catalogue':
+        register_bogus(w)
     return run_path(w, case['type'], case['path'], case['amount'])
 
 
